@@ -3,7 +3,7 @@ from __future__ import annotations
 
 import random
 
-from harness import rtcheck, rtmodel
+from harness import rtcheck, rtfine, rtmodel
 from harness.common import Ctx, Outcome
 
 MANIFEST_ENTRY = dict(
@@ -54,11 +54,18 @@ def scenarios(ctx: Ctx):
 
 def run(ctx: Ctx) -> Outcome:
     if ctx.replay:
+        if ctx.replay['replay']['scenario'].get('fine'):
+            return rtfine.replay_outcome('C12', ctx, also=('C07',))
         return rtcheck.replay_outcome('C12', ctx, also=('C07',))
     scs = scenarios(ctx)
+    # WorkerFine.tla, cancel configurations (cancel of a future with its result in flight, _handle_cancel racing the main thread,
+    # the client cancelling the compilation): TLC runs in the background, replays into the real Worker afterwards
+    fine = rtfine.start('C12', ctx)
     model_cov, guided, notes = rtmodel.model_check_and_generate('C12', ctx)
-    out = rtcheck.validate('C12', scs, ctx, extra_traces=guided, also=('C07',), extra_cov=model_cov)
-    out.notes += notes
+    fine_cov, fine_traces, fine_notes = fine.result()
+    rtfine.merge(model_cov, fine_cov)
+    out = rtcheck.validate('C12', scs, ctx, extra_traces=list(guided) + fine_traces, also=('C07',), extra_cov=model_cov)
+    out.notes += notes + fine_notes
     out.assumptions = ['cancelled work is computed by the specification from the observed cancel / completion / disconnect events',
                        'the idle snapshot is taken when no thread of any node can make a step and every client call has returned']
     return out
